@@ -8,7 +8,7 @@ import functools
 import itertools
 
 KINDS = ("matrix", "expr", "expr_table", "nary_expr", "func_pos", "func_kwargs", "func_partial", "unary_func",
-         "unary_expr", "unary_bool", "zeroary", "neutral", "conditional", "nary_expr_renamed")
+         "unary_expr", "unary_bool", "zeroary", "neutral", "conditional", "nary_expr_renamed", "func_pos_named")
 
 _POOL = ["x", "y", "z", "w", "aa", "bb", "v1", "v2", "v10", "k", "m", "n1", "q", "t"]
 
@@ -72,7 +72,7 @@ def gen_spec(rng, kind=None, nvars=None, mag="small", max_dom=3, name="r0"):
         nvars = rng.randint(1, 4) if kind not in ("conditional",) else rng.randint(2, 4)
     vars_ = draw_vars(rng, nvars, max_dom)
     spec["vars"] = vars_
-    if kind in ("matrix", "expr_table", "func_pos", "func_kwargs", "func_partial", "unary_func"):
+    if kind in ("matrix", "expr_table", "func_pos", "func_kwargs", "func_partial", "unary_func", "func_pos_named"):
         spec["table"] = {key_of(vars_, a): draw_value(rng, mag) for a in all_assignments(vars_)}
         if kind == "func_partial":
             spec["extra"] = rng.randint(1, 5)
@@ -86,6 +86,17 @@ def gen_spec(rng, kind=None, nvars=None, mag="small", max_dom=3, name="r0"):
             terms.append("%s * %s" % (names[0], names[-1]))
         spec["expr"] = " + ".join(terms) + " - %d" % rng.randint(0, 5)
         spec["coefs"] = coefs
+    if kind == "func_pos_named":
+        # a plain python function bound by POSITION whose parameter names are either a permutation of the variable
+        # names or foreign names in non-alphabetical order (names must play no role for python functions)
+        names = [v[0] for v in vars_]
+        if rng.random() < 0.5 and len(names) >= 2:
+            params = list(names)
+            while params == names:
+                rng.shuffle(params)
+        else:
+            params = rng.sample(["room", "light", "level", "t", "s", "r", "q", "zeta", "b2"], len(names))
+        spec["params"] = params
     elif kind == "nary_expr_renamed":
         # the expression uses its own argument names: variables are bound to them by position (sorted argument names)
         if len(vars_) < 2:
@@ -218,6 +229,12 @@ def build_relation(spec, cache=None):
         else:
             def f(p0, p1, p2, p3):
                 return look({names[0]: p0, names[1]: p1, names[2]: p2, names[3]: p3})
+        return R.NAryFunctionRelation(f, vs, name=name), cache
+    if kind == "func_pos_named":
+        look = table_fn(spec["table"], spec["vars"])
+        params = spec["params"]
+        src = "lambda %s: _look({%s})" % (", ".join(params), ", ".join("%r: %s" % (names[i], params[i]) for i in range(len(names))))
+        f = eval(src, {"_look": look})
         return R.NAryFunctionRelation(f, vs, name=name), cache
     if kind == "func_kwargs":
         look = table_fn(spec["table"], spec["vars"])
